@@ -306,6 +306,7 @@ type c18Scenario struct {
 	After   []Op
 	Min     bool // minimal configuration: no lock/confirm/remember, no TOTP replay protection (fewer later saves that could mask a lost one)
 	OneTime bool // with Min: keep TOTP replay protection on
+	MailGo  bool // Modules.MailNoGoroutine left at its default (false): the library sends mails from goroutines of its own
 }
 
 func c18Cfg(err500 bool, emailAuth bool) harness.Config {
@@ -358,6 +359,10 @@ func c18Scenarios() []c18Scenario {
 		{Name: "confirm-invalid", Setup: []Op{{K: "reconfirm", A: 3}}, Target: Op{K: "confirm", A: 3, Src: "cnftok", SA: 3, Mut: "flip", MA: 300}},
 		{Name: "recover-start-known", Target: Op{K: "recstart", A: 0}, After: []Op{{K: "recend", A: 0, Src: "rectok", SA: 0, S: "Passw0rd!R"}}},
 		{Name: "recover-start-unknown", Target: Op{K: "recstart", A: -1}},
+		// the same with the library's default mail goroutines: only sending may move out of the request, saving may not
+		{Name: "recover-start-known-mailgo", MailGo: true, Target: Op{K: "recstart", A: 0}, After: []Op{{K: "recend", A: 0, Src: "rectok", SA: 0, S: "Passw0rd!R"}}},
+		{Name: "register-new-mailgo", MailGo: true, Target: Op{K: "register", A: -1, N: 0, Src: "lit", S: "Passw0rd!N"}, After: []Op{{K: "login", A: 5, Src: "pw", SA: 5}}},
+		{Name: "email-verify-start-mailgo", MailGo: true, Setup: []Op{login0}, Target: Op{K: "evstart", N: 0}},
 		{Name: "recover-end-valid", Setup: []Op{{K: "recstart", A: 0}}, Target: Op{K: "recend", A: 0, Src: "rectok", SA: 0, S: "Passw0rd!R"},
 			After: []Op{{K: "newsess"}, {K: "recend", A: 0, Src: "rectok", SA: 0, S: "Passw0rd!S"}, {K: "login", A: 0, Src: "pwold", SA: 0}}},
 		{Name: "recover-end-remembered", Setup: []Op{{K: "login", B: 1, A: 0, Src: "pw", SA: 0, F: true}, {K: "recstart", A: 0}}, Target: Op{K: "recend", A: 0, Src: "rectok", SA: 0, S: "Passw0rd!R"},
@@ -427,6 +432,7 @@ func c18Build(sc c18Scenario, run c18Run) Case {
 	ops = append(ops, t)
 	ops = append(ops, sc.After...)
 	cfg := c18Cfg(run.Err500, true)
+	cfg.MailGo = sc.MailGo
 	if sc.Min {
 		cfg.Modules = []string{"auth", "otp", "logout", "recover"}
 		cfg.Setups = []string{"totp", "sms", "recovery"}
@@ -523,7 +529,10 @@ var profC18 = profile{
 	must:        []string{"auth"}, may: []string{"confirm", "lock", "logout", "oauth2", "otp", "recover", "register", "remember"},
 	setups: []string{"totp", "sms", "recovery", "expire"}, kinds: append(append([]wk{}, worldKinds...), wk{"snip:rec2fa", 4}, wk{"snip:mangle", 2}, wk{"snip:reclocked", 4}), minOps: 14, maxOps: 34,
 	accts: [2]int{2, 3}, browsers: [2]int{1, 2}, middlewares: []string{"", "remember", "remember", "expire"},
-	tweak:      func(t *rapid.T, c *harness.Config) { c.LockAfter = rapid.IntRange(3, 6).Draw(t, "lockafter18") },
+	tweak: func(t *rapid.T, c *harness.Config) {
+		c.LockAfter = rapid.IntRange(3, 6).Draw(t, "lockafter18")
+		c.MailGo = chance(t, "mailgo18", 30)
+	},
 	jsonMangle: 4,
 	badQuery:   4, badQueryForm: true,
 }
